@@ -299,6 +299,38 @@ func ruleC10b(c *Ctx) {
 				"second argument is a load of "+site.Writer.String()+", the variable the install stores the compressing writer into",
 				"the recover handler is given a writer other than the active one: after an install its 500 body goes out raw under a Content-Encoding label")
 		})
+		// ... and nothing else in the recover closure is handed another writer of this request: whatever answers the
+		// panic (a second handler, a Response built for it) writes through the active one
+		if cl.Parent() != nil {
+			eachInstr(cl, func(i ssa.Instruction) {
+				cc := callCommon(i)
+				if cc == nil {
+					return
+				}
+				for _, a := range callArgs(cc) {
+					if !isHTTPResponseWriter(a.Type()) {
+						continue
+					}
+					if _, isConst := a.(*ssa.Const); isConst {
+						continue
+					}
+					if p.isVar(a, site.Writer) {
+						continue
+					}
+					// a writer that is not the active variable: the raw parameter of the dispatching function (or anything else)
+					raw := false
+					for _, src := range p.sources(a, provOpt{ThroughCells: true}) {
+						if prm, ok := strip(src).(*ssa.Parameter); ok && prm.Parent() == fn && isHTTPResponseWriter(prm.Type()) {
+							raw = true
+						}
+					}
+					if raw {
+						c.bad(p.fname(cl), "every writer used while recovering is the active one", p.ipos(i),
+							"the recover closure hands the dispatching function's raw writer to "+shortOr(cc, "a function value")+" instead of "+site.Writer.String()+": after an install the answer to the panic goes out raw under a Content-Encoding label (and the deferred Close appends an empty compressed stream)")
+					}
+				}
+			})
+		}
 		if site.CloseDef == nil {
 			c.bad(name, "Close-defer before recover-defer", p.ipos(recDefer), "no deferred Close of the active writer in the dispatching function")
 			continue
